@@ -200,4 +200,17 @@ def Dims.matmul (a b : Dims) : Except Err Dims :=
 
 def Dims.asList (d : Dims) : NL := .list [d.to.asList, d.fr.asList]
 
+/-! ## Matrix elements and overlaps (`Qobj.matrix_element`, `Qobj.overlap` after their repair) -/
+
+/-- the space a state lives in: `_dims[0]` of a ket, `_dims[1]` of a bra -/
+def stateSpace (isket : Bool) (d : Dims) : Sp := if isket then d.to else d.fr
+
+/-- `A.matrix_element(l, r)` is accepted when the states live in the operator's output and input spaces -/
+def matrixElementOk (A : Dims) (lket : Bool) (l : Dims) (rket : Bool) (r : Dims) : Bool :=
+  Sp.beq (stateSpace lket l) A.to && Sp.beq A.fr (stateSpace rket r)
+
+/-- `a.overlap(b)` of two states is accepted when they live in one space -/
+def overlapOk (aket : Bool) (a : Dims) (bket : Bool) (b : Dims) : Bool :=
+  Sp.beq (stateSpace aket a) (stateSpace bket b)
+
 end Qv.C02
